@@ -600,6 +600,46 @@ theorem no_leak (agents : List Agent) (acts : List PAct) (hv : ∀ x ∈ acts, P
     cases b.role <;> rfl
   exact (in_order_exactly_once agents acts hv ⟨!b.side, b.role.flip, b.proto⟩ b hbp hb hp).subset hc
 
+/-! ## chunking of messages -/
+
+theorem chunksOf_spec (n : Nat) (hn : 0 < n) : ∀ (fuel : Nat) (l : Bytes), l.length ≤ fuel →
+    (chunksOf n fuel l).flatten = l ∧ ∀ c ∈ chunksOf n fuel l, c.length ≤ n ∧ c ≠ [] := by
+  intro fuel
+  induction fuel with
+  | zero =>
+    intro l hl
+    have : l = [] := List.eq_nil_of_length_eq_zero (by omega)
+    subst this; simp [chunksOf]
+  | succ f ih =>
+    intro l hl
+    by_cases he : l.isEmpty = true
+    · have : l = [] := List.isEmpty_iff.1 he
+      subst this; simp [chunksOf]
+    · have hne : l ≠ [] := fun e => he (List.isEmpty_iff.2 e)
+      have hpos : 0 < l.length := List.length_pos_iff.2 hne
+      have hd : (l.drop n).length ≤ f := by simp only [List.length_drop]; omega
+      obtain ⟨h1, h2⟩ := ih (l.drop n) hd
+      have he' : l.isEmpty = false := by simpa using he
+      simp only [chunksOf, he', Bool.false_eq_true, if_false]
+      refine ⟨by simp [h1], ?_⟩
+      intro c hc
+      simp only [List.mem_cons] at hc
+      rcases hc with rfl | hc
+      · refine ⟨by simp only [List.length_take]; omega, ?_⟩
+        intro e
+        have := congrArg List.length e
+        simp only [List.length_take, List.length_nil] at this
+        omega
+      · exact h2 c hc
+
+/-- `send_msg_chunks` cuts an encoded message into non-empty chunks within the segment maximum whose
+    concatenation is the message: its `enqueue_chunk` calls satisfy `ValidAct`, and what the peer
+    dequeues (by `in_order_exactly_once`) is a split of the encoding in the sense of C21 -/
+theorem send_msg_chunks_spec (payload : Bytes) :
+    (sendMsgChunks payload).flatten = payload ∧
+      ∀ c ∈ sendMsgChunks payload, c.length ≤ 65535 ∧ c ≠ [] :=
+  chunksOf_spec MAX_SEGMENT_PAYLOAD_LENGTH (by decide) payload.length payload (Nat.le_refl _)
+
 /-! ## constants of the source (regenerated on every run by lib/translate_consts.py) -/
 
 /-- the model's constants are the ones in `multiplexer.rs` / `bearer.rs`; the direction masks of
